@@ -11,7 +11,7 @@ From Verif.Eco Require Import RangeCore VLayer Iface.
 From Verif.Eco.Gem Require Version.
 
 (* operators := []string{">=", "<=", "!=", ">", "<", "="} *)
-(* the list is generated from the Go source on every run (tools/gen -> Gen/Operators.v) *)
+(* generated from the Go source on every run (tools/gen -> Gen/Operators.v) *)
 Definition gem_ops : list bytes :=
   Eval cbv delta [Verif.Gen.Operators.gem_ops] in Verif.Gen.Operators.gem_ops.
 Definition pess : bytes := $"~>".
